@@ -20,10 +20,10 @@ from engine import symx
 from . import chrun, common, monitors, trav, trav_plans, travcheck
 
 ALL = ["fail", "error", "pass", "warn", "skip", "cancel", "interrupted", "unknown"]
-RERUN_FULL = [None, "", "fail error", "fail", "pass warn", "fail error warn pass skip cancel interrupted unknown", "fail bogus"]
-STOP_FULL = [None, "", "pass", "fail error", "warn unknown", "nonsense"]
-RERUN_MENU = [None, "fail error", "pass warn", "fail bogus"]
-STOP_MENU = [None, "pass", "fail error", "nonsense"]
+RERUN_FULL = [None, "", "fail error", "fail", "pass warn", "fail error warn pass skip cancel interrupted unknown", "fail bogus", "FAIL", "Fail error"]
+STOP_FULL = [None, "", "pass", "fail error", "warn unknown", "nonsense", "PASS"]
+RERUN_MENU = [None, "fail error", "pass warn", "fail bogus", "FAIL"]
+STOP_MENU = [None, "pass", "fail error", "nonsense", "PASS"]
 _cfg = {"max_results": 3, "statuses": ["PASS", "FAIL", "ERROR", "WARN", "SKIP", "UNKNOWN"]}
 _nodes: dict[str, Any] = {}
 
@@ -416,6 +416,7 @@ def plans(tier: str) -> list[dict[str, Any]]:
         P("ids: G1 2 workers max_tries=3", trav.menu("G1", params={"max_tries": "3"}, label="G1-tries3"), [ids_monitor], K=1, statuses=["PASS", "FAIL", "NONE"], max_nonpass=2),
         P("own results: G1 2 workers, result records arriving late", trav.menu("G1"), [ids_monitor], K=1, statuses=["PASS", "LATE:PASS", "LATE:FAIL"], max_nonpass=2, pool_fixed={"install": ["shared"]}),
         P("ids: G2 2 workers max_tries=2", trav.menu("G2", params={"max_tries": "2", "stop_status": "pass"}, label="G2-tries2-stop"), [ids_monitor], K=1, statuses=["PASS", "FAIL"], max_nonpass=2),
+        P("own results: G1 1 worker max_tries=3 stop on fail, tries of different recorded durations", trav.menu("G1x1", params={"max_tries": "3", "stop_status": "fail"}, label="G1x1-elapsed"), [ids_monitor, retry_count_monitor], K=1, statuses=["PASS", "FAIL"], max_nonpass=1, elapsed_options=["1", "2"], pool_fixed=trav.DEEP_PRESENT),
         P("tries: G1 1 worker max_tries=3, any two failures", trav.menu("G1x1", params={"max_tries": "3"}, label="G1x1-tries3"), [retry_count_monitor], K=1, statuses=["PASS", "FAIL"], max_nonpass=2),
         P("tries: G1 1 worker max_tries=3 stop on pass", trav.menu("G1x1", params={"max_tries": "3", "stop_status": "pass"}, label="G1x1-tries3-stop"), [retry_count_monitor], K=1, statuses=["PASS", "FAIL"], max_nonpass=2),
         P("replay: G1 1 worker, previous results symbolic", trav.menu("G1x1", lazy=False, params={"replay": "job1"}, label="G1-replay"), [replay_monitor], K=1, statuses=["PASS"], pool_bits="shared", pool_states=["customize", "on_customize"], pool_fixed={"install": ["shared"]}, setup=_setup_previous),
